@@ -222,38 +222,43 @@ def infra_digest(infra):
 # reference generation (no cache involved)
 # ------------------------------------------------------------------------------------------------
 class Ref:
+    """what the inputs at version vector vv must produce, generated outside any cache and without
+    any pickling: infrastructure = Infrastructure(...) under seed s0; scenario i = that fresh
+    infrastructure's generate_emissions(sim_number=i) under seed si"""
+
     def __init__(self, root):
         self.inputs = Inputs(os.path.join(root, "ref_in"))
-        self._infra = {}     # (vv, s0) -> (digest, pickled bytes)
+        self._infra = {}     # (vv, s0) -> digest
         self._emis = {}      # (vv, s0, si, i) -> digest
         self.generated = 0
 
-    def infra(self, vv, s0):
+    def _fresh(self, vv, s0):
+        self.inputs.set_all(vv)
+        np.random.seed(s0)
+        with contextlib.redirect_stdout(io.StringIO()):
+            inf = Infrastructure(virtual_world=self.inputs.vw, methods=methods_of(self.inputs.programs),
+                                 in_dir=self.inputs.in_dir)
+        self.generated += 1
         key = (tuple(vv), s0)
         if key not in self._infra:
-            self.inputs.set_all(vv)
-            np.random.seed(s0)
-            with contextlib.redirect_stdout(io.StringIO()):
-                inf = Infrastructure(virtual_world=self.inputs.vw, methods=methods_of(self.inputs.programs),
-                                     in_dir=self.inputs.in_dir)
-            b = pickle.dumps(inf)
-            self._infra[key] = (infra_digest(inf), b)
-            self.generated += 1
-        return self._infra[key]
+            self._infra[key] = infra_digest(inf)
+        return inf
 
     def infra_digest(self, vv, s0):
-        return self.infra(vv, s0)[0]
+        key = (tuple(vv), s0)
+        if key not in self._infra:
+            self._fresh(vv, s0)
+        return self._infra[key]
 
     def emis_digest(self, vv, s0, si, i):
         key = (tuple(vv), s0, si, i)
         if key not in self._emis:
-            inf = pickle.loads(self.infra(vv, s0)[1])
+            inf = self._fresh(vv, s0)
             np.random.seed(si)
             with contextlib.redirect_stdout(io.StringIO()):
                 e = inf.generate_emissions(sim_start_date=self.inputs.start, sim_end_date=self.inputs.end,
                                            sim_number=i, pre_simulation_emissions=self.inputs.pre_sim)
             self._emis[key] = digest(e)
-            self.generated += 1
         return self._emis[key]
 
 
